@@ -322,9 +322,10 @@ def r07_11(ctx):
     f = P.own_method("SplineMethod", "grid_control")
     sc = ctx.scope(f)
     rets = [r for r in walk_no_nested(f.node) if isinstance(r, ast.Return) and isinstance(r.value, ast.Tuple) and len(r.value.elts) == 2]
-    if len(rets) != 1 or not all(isinstance(e, ast.Name) for e in rets[0].value.elts):
-        raise AnalysisError("SplineMethod.grid_control: expected `return <time name>, <values name>`")
-    tn, vn = [e.id for e in rets[0].value.elts]
+    if len(rets) != 1:
+        raise AnalysisError("SplineMethod.grid_control: expected one `return <times>, <values>`")
+    # an element that is not a plain name cannot have been cut by an assignment: it simply has no cut below
+    tn, vn = [e.id if isinstance(e, ast.Name) else "<%s>" % ast.unparse(e) for e in rets[0].value.elts]
     for flag, tsl, vsl, off in (("include_first", "1:", ":,1:", "min_offset"), ("include_last", ":-1", ":,:-1", "max_offset")):
         cuts = {}
         for st in walk_no_nested(f.node):
@@ -333,7 +334,7 @@ def r07_11(ctx):
                 gs = [(ast.unparse(t).replace(" ", ""), p) for t, p in sc.guard_conjuncts(st)]
                 if (flag, False) in gs:
                     cuts[st.targets[0].id] = (ast.unparse(st.value.slice).replace(" ", "").strip("()"), sorted(g for g in gs if g[0] != flag))
-        ok = cuts.get(tn, (None,))[0] == tsl and cuts.get(vn, (None,))[0] == vsl and cuts[tn][1] == cuts[vn][1] and cuts[tn][1] in ([], [("%s==0" % off, True)])
+        ok = tn in cuts and vn in cuts and cuts[tn][0] == tsl and cuts[vn][0] == vsl and cuts[tn][1] == cuts[vn][1] and cuts[tn][1] in ([], [("%s==0" % off, True)])
         ctx.check(ok, "SplineMethod.grid_control leaves out the %s point when %s is False" % ("first" if flag == "include_first" else "last", flag),
                   detail="%s ignored by SplineMethod sampling / constraint placement (or times and values cut differently)" % flag,
                   expected="if not %s [and %s==0]: %s = %s[%s]; %s = %s[%s]" % (flag, off, tn, tn, tsl, vn, vn, vsl), found=str(cuts), fi=f, sample={"flag": flag, "cuts": str(cuts)})
